@@ -266,6 +266,31 @@ def run(prop, tier, seed):
         for kind, name in r["violations"]:
             mach.append("ConveyorRef violates %s in %s (reference model / closed form wrong)" % (name, n))
     slotted_model = []
+    store_level = {"traces": 0, "events": 0}
+    if prop == "C12":
+        # the slotted conveyor under arbitrary call sequences: graph walks, random histories and cancellation scenarios of
+        # the store engine, judged by TLC with the ledger clauses T_C12_MinTravelS / T_C12_OrderS
+        from . import store_engine as _se
+        d2, _st2 = _se.corpus(tier, seed)
+        for fname, r in sorted(_se.leg_c(d2).items()):
+            if "slotted" not in fname:
+                continue
+            store_level["traces"] += r["traces"]
+            store_level["events"] += r["events"]
+            t = r["tlc"]
+            if not t["completed"] or t["timed_out"] or t["errors"]:
+                mach.append("leg C (store level) %s: TLC did not complete %s" % (fname, t["errors"][:1]))
+            trs = None
+            seen2 = set()
+            for v in r["violations"]:
+                if v["clause"] in ("T_C12_MinTravelS", "T_C12_OrderS") and (v["clause"], v["tid"]) not in seen2:
+                    seen2.add((v["clause"], v["tid"]))
+                    if trs is None:
+                        trs = common.load_json(os.path.join(d2, fname))
+                    tr = trs[v["tid"] - 1]
+                    violations.append({"clause": v["clause"], "engine": "store-trace", "component": "slotted", "acc": tr["cfg"].get("acc", 1),
+                                       "kind": "store_level", "config": fname, "step": v["l"], "cfg": tr["cfg"],
+                                       "events": tr["ev"][:(v["l"] or 0) + 1], "source": tr.get("src")})
     if prop == "C12":
         # the slotted belt store is also a kind of StoreCore (exhaustive model + graph walk on the real class in the store
         # engine); its design-level travel-time / order clause belongs to C12
@@ -287,6 +312,7 @@ def run(prop, tier, seed):
     coverage = {"states": states, "transitions": trans, "traces_validated_against_impl": ntr, "samples": samples,
                 "legA_configs": [{"config": n, "distinct": r["distinct"]} for n, r in la.items()] + slotted_model,
                 "legA_clauses": R_INV[prop] + R_PROP[prop], "legC_clauses": sorted(mine), "legC_events_judged": nev,
+                "store_level_slotted_traces": store_level,
                 "runs_of_real_conveyors": st["runs"], "outcomes": st["outcomes"], "exhaustive": False,
                 "evaluations": nev, "distinct_nontrivial": st["runs"],
                 "rule": "producer/consumer scripts (systematic patterns x geometries x both conveyor classes x both modes, "
@@ -304,6 +330,9 @@ def run(prop, tier, seed):
 def replay(prop, path):
     from . import belt_driver
     v = common.load_json(path)
+    if v and v.get("engine") == "store-trace":
+        from . import store_check
+        return store_check.replay(prop, path)
     if not v or not v.get("orig"):
         print("cannot read", path)
         return 2
